@@ -44,3 +44,14 @@ Theorem c01_pipeline_safe : forall buf rt f, wfbytes buf ->
   (exists n, get_wpa_key_data_length f = Done n) /\ (exists o, get_wpa_data f = Done o /\ negative_or_ok o).
 Proof. exact pipeline_safe. Qed.
 Print Assumptions c01_pipeline_safe.
+
+(* the element decoders are public routines: called DIRECTLY on an arbitrary byte range of ANY length (0 included) they
+   return, and every read stays inside the range - rd is arbitrary (it may fault or lie) outside buf.  Since finding
+   F45 each routine checks the length of the range before its first read; before, the RSN / WPA decoders read six
+   octets and the Microsoft element handler its fourth octet unconditionally. *)
+Theorem c01_ie_decoders_safe : forall buf rd, wfbytes buf -> agrees rd buf ->
+  (exists o, get_rsn_info rd 0 (zlen buf) = Done o /\ negative_or_ok o) /\
+  (exists o, get_wpa_info rd 0 (zlen buf) = Done o /\ negative_or_ok o) /\
+  (forall b, exists o, handle_msft rd b 0 (zlen buf) = Done o /\ negative_or_ok o).
+Proof. exact decoders_direct_safe. Qed.
+Print Assumptions c01_ie_decoders_safe.
